@@ -19,6 +19,12 @@ pub enum Shim {
     NoStd,
     Pre181Std,
     Pre181NoStd,
+    /// std + exactly one of the optional features
+    OnlySerde,
+    OnlyArbitrary,
+    OnlyNewUnchecked,
+    OnlySchemars,
+    OnlyRegex,
 }
 
 pub fn expand_ts(shim: Shim, attrs: TokenStream, item: TokenStream) -> Result<TokenStream, String> {
@@ -28,6 +34,11 @@ pub fn expand_ts(shim: Shim, attrs: TokenStream, item: TokenStream) -> Result<To
         Shim::NoStd => nm_nostd::__verif_expand(attrs, item),
         Shim::Pre181Std => nm_pre181std::__verif_expand(attrs, item),
         Shim::Pre181NoStd => nm_pre181nostd::__verif_expand(attrs, item),
+        Shim::OnlySerde => nm_only_serde::__verif_expand(attrs, item),
+        Shim::OnlyArbitrary => nm_only_arbitrary::__verif_expand(attrs, item),
+        Shim::OnlyNewUnchecked => nm_only_new_unchecked::__verif_expand(attrs, item),
+        Shim::OnlySchemars => nm_only_schemars08::__verif_expand(attrs, item),
+        Shim::OnlyRegex => nm_only_regex::__verif_expand(attrs, item),
     });
     match r {
         Ok(Ok(ts)) => Ok(ts),
@@ -280,6 +291,17 @@ fn c08(tier: Tier) -> Rep {
     let small = masks_upto(2);
     rep.merge(check_derive_space(Shim::None, Features::NONE, &small, tier, "features=none", None));
     rep.merge(check_derive_space(Shim::NoStd, Features::NOSTD, &small, tier, "features=serde+arbitrary,no-std", None));
+    // exactly one optional feature on: a gate wired to the wrong feature shows up as a derive that is granted without
+    // its own feature, or refused although its feature is on
+    for (shim, feats, label) in [
+        (Shim::OnlySerde, Features { serde: true, ..Features::NONE }, "features=serde only"),
+        (Shim::OnlyArbitrary, Features { arbitrary: true, ..Features::NONE }, "features=arbitrary only"),
+        (Shim::OnlyNewUnchecked, Features { new_unchecked: true, ..Features::NONE }, "features=new_unchecked only"),
+        (Shim::OnlySchemars, Features { schemars08: true, ..Features::NONE }, "features=schemars08 only"),
+        (Shim::OnlyRegex, Features { regex: true, ..Features::NONE }, "features=regex only"),
+    ] {
+        rep.merge(check_derive_space(shim, feats, &small, tier, label, None));
+    }
     // (2) literal bounds in every relative position for every numeric type
     let kinds: [(&str, bool); 2] = [("greater", true), ("greater_or_equal", false)];
     let ukinds: [(&str, bool); 2] = [("less", true), ("less_or_equal", false)];
@@ -431,6 +453,35 @@ fn c12(tier: Tier) -> Rep {
                     rep.merge(p);
                 }
                 rep.states += 1;
+            }
+        }
+    }
+    // "no NaN or infinite value is obtainable through any safe entry point": the structural rules of C05 applied to the
+    // Eq/Ord float declarations themselves (every safe function that builds the type runs the guards; `new_unchecked`
+    // only with flag + feature and `unsafe`; no mutable access)
+    for item_ty in ["f64", "f32"] {
+        for ga in ["validate(finite),", "validate(finite, greater_or_equal = 0.0, less = 9.0),", "sanitize(with = clamp), validate(finite),"] {
+            for nu in [false, true] {
+                for extra in ["PartialEq, Eq, PartialOrd, Ord", "PartialEq, Eq, PartialOrd, Ord, FromStr, TryFrom, Into, Serialize, Deserialize, Default, Clone, Copy, Debug, Display, AsRef, Deref, Borrow", "PartialEq, Eq, Arbitrary"] {
+                    if extra.contains("Arbitrary") && ga.contains("sanitize") {
+                        continue;
+                    }
+                    let attr = format!("{ga} default = 5.0, derive({extra}){}", if nu { ", new_unchecked" } else { "" });
+                    let item = format!("pub struct X({item_ty});");
+                    rep.evaluations += 1;
+                    rep.transitions += 1;
+                    match expand(Shim::All, &attr, &item) {
+                        Ok(ts) => {
+                            rep.states += 1;
+                            rep.nontrivial += 1;
+                            rep.h("eq-ord-expansions-inspected", 1);
+                            for (class, detail) in structural::check(&ts, "X", nu, Vis::Pub) {
+                                rep.violate("C12", format!("#[nutype({attr})] {item}"), "structural".into(), &format!("safe-entry-point:{class}"), "every safe way to obtain the value runs the `finite` guard".into(), detail);
+                            }
+                        }
+                        Err(m) => rep.machinery.push(format!("C12 structural: declaration expected to expand: {attr}: {m}")),
+                    }
+                }
             }
         }
     }
